@@ -1294,7 +1294,18 @@ def x11(ctx, R):
         ctx.holds("X11", "%s initialises result as a list" % R.reset.qualname)
     else:
         ctx.violation("X11", R.reset, "result-init", "the reset does not initialise `result` as a list", node=R.reset.node)
-    # line/column helpers: 1 <= line <= 1 + newlines
+    # line/column helpers: 1 <= line <= 1 + newlines - the positions a (possibly reused) lexer reports are those of the text at hand
+    try:
+        from .c18 import lexer_eval
+        lev = lexer_eval(ctx, R)
+    except RecursionError:
+        lev = None
+    if lev is not None and lev[0] == "bad":
+        ctx.violation("X11", R.scan, "model:lexer-position", "for the text %r: %s" % (lev[1], lev[2]), node=R.scan.node,
+                      witness="`line N:` with N outside 1 .. 1 + the number of newlines of the input")
+    elif lev is not None:
+        ctx.holds("X11", "the line reported at %d yields / lexical errors of sample texts (also on a reused lexer) is the line of the current token"
+                  % lev[1])
     ln = R.Lexer.methods.get("curlineno")
     if ln is not None:
         rets = [r for r in walk_no_nested(ln.node) if isinstance(r, ast.Return)]
